@@ -159,6 +159,8 @@ def c08(tier: str) -> list[dict[str, Any]]:
         plan("G6 remote clusters", trav.menu("G6b"), m, K=1, statuses=["PASS"], pool_fixed={"install": ["shared"]}),
         plan("G6c two remote workers behind one gateway", trav.menu("G6c"), m, K=1, statuses=["PASS"], pool_fixed=DEEP),
         plan("G2 eager with a replayed previous job (solver-chosen results and producing worker)", trav.menu("G2", lazy=False, params={"replay": "job1"}, label="G2-replay"), m, K=1, statuses=["PASS"], pool_bits="all", pool_states=["customize"], pool_fixed={"install": ["shared"]}, setup=_previous),
+        plan("G1 a retried dependant learns about a producer that finished between its tries", trav.menu("G1", params={"max_tries": "3", "rerun_status": "fail"}, label="G1-rerun-fail"), m, K=1, statuses=["PASS", "FAIL"], max_nonpass=2, pool_fixed=DEEP),
+        plan("G1 runtime slots: a container and the host process", trav.menu("G1", params={"slots": "101 "}, label="G1-slots"), m, K=1, statuses=["PASS"], pool_fixed=DEEP),
         plan("G1 retries with varying recorded durations (PASS may be downgraded to WARN)", trav.menu("G1", params={"max_tries": "2"}, label="G1-elapsed"), m, K=1, statuses=["PASS"], elapsed_options=["1", "2"], pool_fixed={"install": ["shared"]}),
     ]
     if tier == "thorough":
@@ -168,6 +170,9 @@ def c08(tier: str) -> list[dict[str, Any]]:
             plan("G6 three remote workers", trav.menu("G6"), m, K=1, statuses=["PASS", "FAIL"], max_nonpass=1, pool_fixed=DEEP),
             plan("G4 cloning", trav.menu("G4"), m, K=1, statuses=["PASS"], pool_fixed={**DEEP, "linux_virtuser": ["shared"], "windows_virtuser": ["shared"]}),
             plan("G5b mixed restrictions", trav.menu("G5b"), m, K=1, statuses=["PASS", "FAIL"], max_nonpass=1),
+            plan("G1 retries with a failing setup try", trav.menu("G1", params={"max_tries": "2"}, label="G1-tries2-fail"), m, K=1, statuses=["PASS", "FAIL"], max_nonpass=1, pool_fixed=DEEP),
+            plan("G1 two tries, passing only", trav.menu("G1", params={"max_tries": "2"}, label="G1-tries2"), m, K=1, statuses=["PASS"], pool_fixed=DEEP),
+            plan("G1 runtime slots: the host process and a remote host", trav.menu("G1", params={"slots": " gateway.lan/3"}, label="G1-slots-remote"), m, K=1, statuses=["PASS"], pool_fixed=DEEP),
         ]
     return out
 
